@@ -292,6 +292,11 @@ def prefix_pair(kind, p, q):
             r1 = call(lambda: s.store.sync_paths(OrderedDict([(first, H["k1"])])))
             if r1[0] != "ok":
                 continue
+            if first == q:
+                # only the longer path is committed so far: its prefix is a directory, not a committed path
+                f0 = call(lambda: s.store.fetch_paths([p]))
+                if f0[0] == "ok":
+                    probs.append((f"C08|{kind}|prefix_pair|uncommitted_prefix_resolves", f"only {q!r} is committed, but fetch_paths([{p!r}]) -> {dict(f0[1]) if hasattr(f0[1], 'items') else f0[1]!r}"))
             before = physical(s)
             r2 = call(lambda: s.store.sync_paths(OrderedDict([(second, H["k2"])])))
             f1 = call(lambda: s.store.fetch_paths([first]))
